@@ -691,6 +691,14 @@ func c13(c *Ctx) (*report.Result, error) {
 			res.Undec("O13.9", "skip-list obligations of O12.3", "", fmt.Sprintf("%d imported, at least 10 expected", n))
 		}
 	}
+	res.RuleDoc["O13.15"] = "the search-attribute translator runs for the calls it is meant for: its method filter excludes exactly the WorkflowService prefix (the filter obligations of O14.4, imported) - a filter that matches nothing (a service name without the leading slash of gRPC's full method) leaves every unary AdminService message unmapped, in both directions, while the replication stream, which does not consult the filter, keeps translating"
+	if r14, err := Registry["C14"](c); err == nil && r14 != nil {
+		if n := importObligations(res, r14, "O13.15", func(o report.Obligation) bool { return o.Rule == "O14.4" }); n < 1 {
+			res.Undec("O13.15", "method-filter obligations of O14.4", "", "none imported")
+		}
+	} else {
+		res.Undec("O13.15", "method-filter obligations of O14.4", "", "C14 rule set failed")
+	}
 	res.RuleDoc["O13.14"] = "a decoded history blob is walked, whoever asks: in translateOneDataBlob no return that can report success is reachable after the decode without the call of the visitor parameter - the function serves the namespace translator, the search-attribute translator and the access check, so a short cut that is right for one of them (a batch of skip-listed event types has no namespace) leaves the keys of the others unmapped, in both directions"
 	checkDecodedBlobAlwaysWalked(c, res, "O13.14")
 	res.RuleDoc["O13.13"] = "a message is mapped once on its way through a deployment (same analysis as O12.13): intra-proxy streams reach their handler without the translating wrapper"
